@@ -106,6 +106,12 @@ def run(ctx):
                        combos_rejected=dyn.get("combos_rejected") or [], runs_per_combo=dyn["runs_per_combo"],
                        files_compared=dyn["files_compared"], plugin_requests_compared=dyn["plugin_requests_compared"],
                        shrink_tests=dyn["shrink_tests"])
+        multi = st["distribution"].get("D:of_those_marshalled_in_2+_orders_within_8_calls", 0)
+        ctx.cov["descriptor_marshalling"] = ("iteration order reaches the bytes (%d of %d descriptors with a >=2-entry map were marshalled "
+                                             "in >=2 orders within 8 calls): class emitInOrder, descriptor_bytes_order_sensitive applies" % (
+                                                 multi, st["distribution"].get("D:descriptors_with_a_map_of_2+_entries", 0))) if multi else (
+            "every descriptor marshalled to one byte string: the sorted variant is in effect (descriptor_bytes_sorted_perm); "
+            "the classification of meta.write as emitInOrder in Props/C07.lean is stale")
         if dyn["combos"] and dyn["combos_accepted"] * 2 < dyn["combos"]:
             raise core.MachineryError("generator problem: thriftgo rejected most generated programs: %s" % (dyn.get("combos_rejected") or [])[:3])
         for f in (st.get("oracle_failures") or []):
